@@ -20,9 +20,12 @@ on equal panels (the integrand is analytic for t > 0).  Space: composite Gauss g
 points of the element (polygon corners, where the potential has a layer of width sqrt(t), can only be end points of
 an element that lies inside one unit piece of a side) and towards optional interior break points.
 
-Everything is validated in props/C08.py (mpmath adaptive quadrature at 30 digits on a fixed panel, the closed forms
-of /repo/problems.py pointwise, self-convergence under refinement of the rule parameters, closed forms against
-fac_gauss)."""
+Everything is validated in props/C08.py on every run and recorded in the evidence: mpmath adaptive quadrature (26-30
+digits; mp_load_fubini / mp_load / mp_M0 / mp_M0_2d below) on a fixed panel of loads and points, the closed forms of
+/repo/problems.py pointwise, every deciding reference load with two unrelated parameter sets ('std', 'alt'), u0 = 1
+additionally with the space integral in closed form (load_const_semianalytic), closed-form factors against fac_gauss.
+Measured (2026-10-03): loads vs mpmath <= 3e-15 relative, points <= 5e-15, std vs alt <= 3e-13 over 34 536 loads,
+vs problems.py <= 2e-15."""
 import math
 
 import numpy as np
@@ -190,10 +193,13 @@ def both_ends(n, levels, sigma):
 
 
 PARAMS = {
-    # name: (time: n, levels, sigma | panels for a > 0), (space: n, levels, sigma)
-    'std': {'tn': 16, 'tl': 40, 'ts': 0.5, 'tp': 4, 'xn': 16, 'xl': 30, 'xs': 0.5},
-    'fine': {'tn': 24, 'tl': 60, 'ts': 0.5, 'tp': 8, 'xn': 24, 'xl': 45, 'xs': 0.5},
-    'alt': {'tn': 20, 'tl': 28, 'ts': 0.35, 'tp': 3, 'xn': 20, 'xl': 22, 'xs': 0.35},
+    # time: tn-point Gauss on tl levels graded by ts towards t = 0 (elements starting at 0) or on tp equal panels;
+    # space: xn-point Gauss on xl levels graded by xs towards both ends.  'std' was chosen as the cheapest set that
+    # reproduces 'fine' to <= 1e-15 relative on every element of level <= 3 of the three domains (see C08 evidence:
+    # every deciding reference value is computed with 'std' AND 'alt' and the two must agree to 1e-10).
+    'std': {'tn': 16, 'tl': 18, 'ts': 0.25, 'tp': 2, 'xn': 16, 'xl': 12, 'xs': 0.25},
+    'alt': {'tn': 10, 'tl': 26, 'ts': 0.4, 'tp': 3, 'xn': 10, 'xl': 18, 'xs': 0.4},
+    'fine': {'tn': 16, 'tl': 40, 'ts': 0.5, 'tp': 4, 'xn': 16, 'xl': 30, 'xs': 0.5},
 }
 _RULES = {}
 
@@ -363,3 +369,50 @@ def mp_load(dom, u0name, tint, xint, dps=30):
     a, b = mp.mpf(tint[0]), mp.mpf(tint[1])
     val, err = mp.quad(inner, [a, (a + b) / 2, b], error=True)
     return ln * val, err
+
+
+def mp_load_fubini(dom, u0name, tint, xint, dps=25, inner='tanh-sinh', offs=(-14, -7, -3, -1, 0, 1, 3, 7, 14)):
+    """Reference load, organised differently from load_segment: the space integral along the (axis-parallel) element is
+    done first, in closed form, on the KERNEL (int_lo^hi g(t,x-y) dx = [erf((hi-y)/2sqrt t) - erf((lo-y)/2sqrt t)]/2),
+    so that  load = int_a^b sum_R sum_terms c * A(t) * C(t) dt  with two one-dimensional adaptive quadratures
+        A(t) = int f_fixed(y) g(t, fixed - y) dy,   C(t) = int f_var(y) [erf((hi-y)/2sqrt t) - erf((lo-y)/2sqrt t)]/2 dy
+    over the sides of the rectangle, inside an adaptive quadrature in time.  No closed form for the data is used."""
+    import mpmath as mp
+    mp.mp.dps = dps
+    terms = u0_terms(u0name, dom)
+    p0, p1 = boundary_point(dom, xint[0]), boundary_point(dom, xint[1])
+    if dom == 'PiSquare':
+        conv = lambda v: mp.pi * round(v / PI * 64) / 64 if abs(v / PI * 64 - round(v / PI * 64)) < 1e-12 else mp.mpf(v)
+    else:
+        conv = lambda v: mp.mpf(v)
+    horiz = p0[1] == p1[1]
+    lo, hi = sorted([conv(p0[0]), conv(p1[0])] if horiz else [conv(p0[1]), conv(p1[1])])
+    fixed = conv(p0[1] if horiz else p0[0])
+    rects = mp_rects(dom, mp)
+
+    def fun(desc):
+        if desc[0] == 'm':
+            return lambda y: y**desc[1]
+        k = mp.pi if desc[1] == PI else mp.mpf(desc[1])
+        return lambda y: mp.sin(k * y)
+
+    def bp(r0, r1, centres, w):
+        c = [r0, r1]
+        for z in centres:
+            c += [z + j * w for j in offs]
+        return sorted(set(p for p in c if r0 <= p <= r1))
+
+    def integrand(t):
+        w = 2 * mp.sqrt(t)
+        tot = mp.mpf(0)
+        for (x0, x1, y0, y1) in rects:
+            (r0, r1), (q0, q1) = ((x0, x1), (y0, y1)) if horiz else ((y0, y1), (x0, x1))
+            for c, fx, fy in terms:
+                fv, ff = (fun(fx), fun(fy)) if horiz else (fun(fy), fun(fx))
+                A = mp.quad(lambda y: ff(y) * mp.exp(-(fixed - y)**2 / (4 * t)) / mp.sqrt(4 * mp.pi * t), bp(q0, q1, [fixed], w), method=inner)
+                C = mp.quad(lambda y: fv(y) * (mp.erf((hi - y) / w) - mp.erf((lo - y) / w)) / 2, bp(r0, r1, [lo, hi], w), method=inner)
+                tot += c * A * C
+        return tot
+    a, b = mp.mpf(tint[0]), mp.mpf(tint[1])
+    val, err = mp.quad(integrand, [a, a + (b - a) / 16, (a + b) / 2, b], error=True)
+    return val, err
